@@ -437,11 +437,13 @@ func (c *Crew) toMachines(ctx context.Context, msg interface{}) ([]string, error
 		case []string:
 			return vv, nil
 		case []interface{}:
-			mids := make([]string, len(vv))
-			for i, x := range vv {
+			// A member that isn't a string names no machine
+			// (and in particular not the machine with id "").
+			mids := make([]string, 0, len(vv))
+			for _, x := range vv {
 				switch vv := x.(type) {
 				case string:
-					mids[i] = vv
+					mids = append(mids, vv)
 				}
 			}
 			return mids, nil
